@@ -62,7 +62,7 @@ def plan(tier):
 
 
 def gen_cases(ctx):
-    for i in range(ctx.share(ctx.scale(1200, 16000))):
+    for i in range(ctx.share(ctx.scale(1200, 48000))):
         rng = ctx.rng(1, i)
         big = ctx.tier == "thorough" and rng.random() < 0.01
         yield {"kind": "aggregate", "seed": int(rng.integers(1 << 31)),
